@@ -36,6 +36,14 @@ def parseCluster (s : String) : Option Cluster :=
       let cv ← if cmds = "-" then some [] else (cmds.splitOn ",").mapM (parseLeaf fm false)
       pure { id := i, attrs := av, cmds := cv }
     | _, _ => none
+  | [i, fm, attrs, cmds, evs] =>
+    match i.toNat?, fm.toNat? with
+    | some i, some fm => do
+      let av ← if attrs = "-" then some [] else (attrs.splitOn ",").mapM (parseLeaf fm true)
+      let cv ← if cmds = "-" then some [] else (cmds.splitOn ",").mapM (parseLeaf fm false)
+      let ev ← if evs = "-" then some [] else (evs.splitOn ",").mapM (parseLeaf fm false)
+      pure { id := i, attrs := av, cmds := cv, events := ev }
+    | _, _ => none
   | _ => none
 
 def parseEndpoint (s : String) : Option Endpoint :=
@@ -79,6 +87,7 @@ def statusName : Status → String
   | .unsupportedWrite => "UnsupportedWrite"
   | .needsTimedInteraction => "NeedsTimedInteraction"
   | .unsupportedAccess => "UnsupportedAccess"
+  | .unsupportedEvent => "UnsupportedEvent"
 
 def b01 (b : Bool) : String := if b then "1" else "0"
 
@@ -129,6 +138,74 @@ def swapOracle (ctx : Ctx) (op : Operation) (sched : List Node) (paths : List Pa
 
 def FUEL : Nat := 100000
 
+/-! ### the end-to-end stream (`e2e` lines) -/
+
+def fmtE2eOut : Out → String
+  | .item ep cl leaf _ _ => s!"ok {ep} {cl} {leaf}"
+  | .status p s => s!"st {fmtOpt p.endpoint}/{fmtOpt p.cluster}/{fmtOpt p.leaf} {statusName s}"
+
+def fmtEvOut : EvOut → String
+  | .data e => s!"ev {e.ep} {e.cl} {e.ev} n{e.num}"
+  | .status p s => s!"st {fmtOpt p.endpoint}/{fmtOpt p.cluster}/{fmtOpt p.leaf} {statusName s}"
+
+def joinOr (sep : String) (l : List String) : String := if l.isEmpty then "-" else sep.intercalate l
+
+def fmtOutcome (letter : String) (o : Outcome) : String :=
+  let top := match o.top with | none => "-" | some s => s!"status:{s}"
+  let eff := joinOr "," (o.effects.map fun (e, c, l) => s!"{letter}.{e}.{c}.{l}")
+  s!"{top} # {eff} # {joinOr " | " (o.resp.map fmtE2eOut)}"
+
+def parseOcc (i : Nat) (s : String) : Option EventOcc :=
+  match (s.splitOn ".").mapM (·.toNat?) with
+  | some [e, c, v, f] => some { ep := e, cl := c, ev := v, fab := f, num := i + 1 }
+  | _ => none
+
+def parseTimed (s : String) : Option (Option (Nat × Nat)) :=
+  if s = "-" then some none else
+  match (s.splitOn ":").mapM (·.toNat?) with
+  | some [t, d] => some (some (t, d))
+  | _ => none
+
+def e2eStep (st : St) (kind fab mode id cats treq flag paths emit out : String) : St × String :=
+  let op : Operation := if kind = "w" then .write else if kind = "i" then .invoke else .read
+  match fab.toNat?, id.toNat?, Driver.C05.natList cats, parseTimed treq,
+      (((paths.splitOn ";").filter (fun s => s ≠ "" ∧ s ≠ "-")).mapM parsePath),
+      (if emit = "-" then some [] else
+        (((emit.splitOn ",").zipIdx).mapM fun (s, i) => parseOcc i s)) with
+  | some fab, some id, some cats, some tr, some paths, some queue =>
+    -- `Accessor::for_session`: PASE sessions have the subject 1 and the session's fabric index
+    let acc : Accessor :=
+      if mode = "p" then { fabIdx := fab, auxAclEnabled := false, subjects := subjectsNew 1, authMode := some .pase }
+      else { fabIdx := fab, auxAclEnabled := false, subjects := cats.foldl addCatid (subjectsNew id), authMode := some .case }
+    let flagB := flag = "1"
+    let ctx : Ctx := { fabrics := st.acl.fabrics, accessor := acc, timed := (op ≠ .read) && flagB,
+                       filter := fun _ _ _ => true }
+    let sorted : Bool := decide ((st.node.map (·.id)).Pairwise (· < ·))
+    let inScope := nodeWF st.node && eventsWF st.node &&
+      st.acl.fabrics.all (fun f => f.acl.all (fun e => Driver.C05.canonicalPriv e.privilege))
+    let bad := out.startsWith "panic" ∨ out.startsWith "hang" ∨ out.startsWith "err" ∨ out.startsWith "devend" ∨
+      out.startsWith "setup" ∨ out.startsWith "undecodable" ∨ out.startsWith "timedfail" ∨ out.startsWith "opcode"
+    if mode ≠ "p" ∧ fab = 0 then (st, "BAD e2e case session needs a fabric") else
+    if bad then (if out.startsWith "panic" && !sorted then (st, "ok") else (st, s!"ORA {out}")) else
+    if kind = "v" then
+      let model := s!"- # - # {joinOr " | " ((reportEvents ctx st.node true paths queue).map fmtEvOut)}"
+      let specL := expectedEvents ctx st.node true paths queue
+      let spec := s!"- # - # {joinOr " | " (specL.map fmtEvOut)}"
+      -- the same list without the statuses of concrete paths naming an absent event
+      let specSilent := s!"- # - # {joinOr " | " ((specL.filter fun o =>
+          match o with | .status _ .unsupportedEvent => false | _ => true).map fmtEvOut)}"
+      if inScope && spec ≠ out then
+        (st, if specSilent = out then s!"ORA absent-event-silent spec=[{spec}]" else s!"ORA spec=[{spec}]")
+      else if model = out then (st, "ok") else (st, s!"DIS {model}")
+    else
+      let letter := if kind = "w" then "W" else if kind = "i" then "I" else "R"
+      let fuel := if sorted then fuelBound op st.node paths else FUEL
+      let model := fmtOutcome letter (imRequest op flagB tr paths (expand ctx op st.node paths fuel))
+      let spec := fmtOutcome letter (imRequest op flagB tr paths (expected ctx op st.node paths))
+      if inScope && spec ≠ out then (st, s!"ORA spec=[{spec}]")
+      else if model = out then (st, "ok") else (st, s!"DIS {model}")
+  | _, _, _, _, _, _ => (st, "BAD e2e")
+
 def step (st : St) (line : String) : St × String :=
   let (opText, out) := splitArrow line
   match words opText with
@@ -167,6 +244,8 @@ def step (st : St) (line : String) : St × String :=
       else if inScope && spec ≠ out then (st, s!"ORA spec=[{spec}]")
       else if model = out then (st, "ok") else (st, s!"DIS {model}")
     | _, _, _, _, _, _ => (st, "BAD x")
+  | ["e2e", kind, fab, mode, id, cats, treq, flag, paths, emit] =>
+    e2eStep st kind fab mode id cats treq flag paths emit out
   | "sw" :: kind :: fab :: mode :: aux :: id :: cats :: timed :: excl :: paths :: specs =>
     let op : Operation := if kind = "r" then .read else if kind = "w" then .write else .invoke
     match fab.toNat?, Driver.C05.modeOf mode, id.toNat?, Driver.C05.natList cats,
